@@ -18,8 +18,8 @@ func init() {
 	generators = append(generators, generator{name: "Cron", run: genCron, fallback: cronFallback})
 }
 
-// evalConst evaluates an integer constant expression built from literals, named constants, <<, |, &, +, -, *, parentheses
-func evalConst(e ast.Expr, env map[string]constant.Value) (constant.Value, error) {
+// cronEvalConst evaluates an integer constant expression built from literals, named constants, <<, |, &, +, -, *, parentheses
+func cronEvalConst(e ast.Expr, env map[string]constant.Value) (constant.Value, error) {
 	switch x := e.(type) {
 	case *ast.BasicLit:
 		v := constant.MakeFromLiteral(x.Value, x.Kind, 0)
@@ -33,13 +33,13 @@ func evalConst(e ast.Expr, env map[string]constant.Value) (constant.Value, error
 		}
 		return nil, fmt.Errorf("unknown identifier %s", x.Name)
 	case *ast.ParenExpr:
-		return evalConst(x.X, env)
+		return cronEvalConst(x.X, env)
 	case *ast.BinaryExpr:
-		l, err := evalConst(x.X, env)
+		l, err := cronEvalConst(x.X, env)
 		if err != nil {
 			return nil, err
 		}
-		r, err := evalConst(x.Y, env)
+		r, err := cronEvalConst(x.Y, env)
 		if err != nil {
 			return nil, err
 		}
@@ -58,7 +58,7 @@ func evalConst(e ast.Expr, env map[string]constant.Value) (constant.Value, error
 	return nil, fmt.Errorf("expression %T", e)
 }
 
-func leanStr(s string) string {
+func cronLeanStr(s string) string {
 	var sb strings.Builder
 	sb.WriteByte('"')
 	for _, c := range s {
@@ -111,7 +111,7 @@ func genCron() (string, error) {
 						continue
 					}
 					if g.Tok == token.CONST {
-						v, err := evalConst(vs.Values[i], env)
+						v, err := cronEvalConst(vs.Values[i], env)
 						if err == nil {
 							env[n.Name] = v
 						}
@@ -136,7 +136,7 @@ func genCron() (string, error) {
 							}
 							switch key.Name {
 							case "min", "max", "mask":
-								v, err := evalConst(kv.Value, env)
+								v, err := cronEvalConst(kv.Value, env)
 								if err != nil {
 									if firstErr == nil {
 										firstErr = fmt.Errorf("%s.%s: %v", n.Name, key.Name, err)
@@ -245,7 +245,7 @@ func genCron() (string, error) {
 			}
 			return "", fmt.Errorf("field descriptor %s not found (or not a literal with min/max/mask/reg) in node/cron_parse.go", n)
 		}
-		fmt.Fprintf(&sb, "def %s : FieldDesc := ⟨%s, %s, %s, %s⟩\n", n, fd.min.ExactString(), fd.max.ExactString(), fd.mask.ExactString(), leanStr(fd.reg))
+		fmt.Fprintf(&sb, "def %s : FieldDesc := ⟨%s, %s, %s, %s⟩\n", n, fd.min.ExactString(), fd.max.ExactString(), fd.mask.ExactString(), cronLeanStr(fd.reg))
 		vals[n] = fmt.Sprintf("%s..%s mask %s reg %s", fd.min.ExactString(), fd.max.ExactString(), fd.mask.ExactString(), fd.reg)
 	}
 	if len(macros) == 0 {
@@ -259,7 +259,7 @@ func genCron() (string, error) {
 		if i > 0 {
 			sb.WriteString(", ")
 		}
-		fmt.Fprintf(&sb, "(%s, %s)", leanStr(m[0]), leanStr(m[1]))
+		fmt.Fprintf(&sb, "(%s, %s)", cronLeanStr(m[0]), cronLeanStr(m[1]))
 	}
 	sb.WriteString("]\n\n/-- number of whitespace-separated fields cronParseSpec insists on -/\n")
 	fmt.Fprintf(&sb, "def fieldCount : Nat := %d\n\nend ErgoVerif.Generated.Cron\n", fieldCount)
